@@ -1151,6 +1151,8 @@ class Interp:
             return self.lib.call_abstract(self, f, "__call__", args, kwargs)
         if isinstance(f, SuperProxy):
             raise exc("TypeError")
+        if isinstance(f, Opaque) and getattr(f, "is_parallel", False):
+            return SList(self.iter_concrete(args[0]), "list")
         if callable(f) and getattr(f, "_pyvc_native", False):
             return f(self, args, kwargs)
         raise Undecided(f"call of {f!r}")
